@@ -511,6 +511,16 @@ func deriveTripCount(loop *Loop) {
 		return
 	}
 	exitBlock := loop.Exits[0]
+	// The count below is the number of times the exit test passes, which is the number of
+	// iterations only when the test is evaluated on EVERY iteration: the exiting block has to
+	// dominate every back edge. In 'for i := 0; ; i++ { if odd(i) { continue }; if i >= n { break } }'
+	// the test is skipped on some iterations and the loop runs past n.
+	for _, pred := range loop.Header.Preds {
+		if loop.Blocks[pred] && !exitBlock.Dominates(pred) {
+			loop.TripCount = &SCEVUnknown{Value: nil}
+			return
+		}
+	}
 	if len(exitBlock.Instrs) == 0 {
 		return
 	}
